@@ -9,6 +9,10 @@ CLAIMED = {
          "4.6", "contract-based deductive verification: WP/symbolic execution over the typed Go AST, contracts in //@ comments under build tag verif, obligations discharged by z3/cvc5"),
 }
 
+CLAIMED["C04"] = ("Deductive proof, for every (capacity, front, back) combination at once (the code is loop-free, so each obligation is a closed formula over symbolic buffer state), that each Deque method equals the ideal double-ended sequence operation on the abstract view, panics exactly where the property says with the state unchanged, that Grow/Shrink are view-neutral, and that freed slots hold the zero value (popped elements are not retained).",
+         "Trusted: gvc and its model of slices (make/copy/append/slicing), SMT solvers. Assumed: int arithmetic does not overflow (capacities < 2^62), allocation succeeds. The composition of the per-call contracts into whole histories is the standard induction over the representation invariant wf (initial state proved by a ghost client).",
+         "4.4", CLAIMED["C06"][3])
+
 NOT_APPLICABLE = {
  "C10": "stream.Pipe: every clause is quantified over goroutine interleavings and the runtime's choice among ready select arms; a sequential contract verifier has no model of several goroutines sharing channels (DESIGN.md section 6).",
  "C11": "stream.Batch: three goroutines, a timer and an unbuffered hand-over; partition, max-wait and 'Close always returns' are schedule and liveness statements, not expressible as per-call contracts (DESIGN.md section 6).",
